@@ -224,18 +224,27 @@ func (s *Syncer[H]) findTailHeight(ctx context.Context, oldTail, head H) (uint64
 
 	var estimatedTailHeight uint64
 	switch {
-	case tailTimeDiff <= 0, s.Params.blockTime <= 0:
+	case tailTimeDiff <= 0, s.Params.blockTime <= 0, head.Height() <= oldTail.Height():
 		// current tail is relevant as is, or there is nothing to estimate a new one with
 		return oldTail.Height(), nil
 	case tailTimeDiff >= window:
 		// current and expected tails are far from each other
 		// estimate with head for higher accuracy
 		headersToStore := uint64(window / s.Params.blockTime) //nolint:gosec
+		if headersToStore >= head.Height()-oldTail.Height() {
+			// fewer headers than the window would hold at one header per blockTime
+			// (e.g. the chain was halted for a while): the estimate must not leave the chain
+			headersToStore = head.Height() - oldTail.Height()
+		}
 		estimatedTailHeight = head.Height() - headersToStore
 	case tailTimeDiff < window:
 		// tails are close
 		// estimate with tail for higher accuracy
 		headersToStore := uint64(tailTimeDiff / s.Params.blockTime) //nolint:gosec
+		if headersToStore >= head.Height()-oldTail.Height() {
+			// blocks were slower than blockTime: the estimate must not pass the head
+			headersToStore = head.Height() - oldTail.Height()
+		}
 		estimatedTailHeight = oldTail.Height() + headersToStore
 	}
 
